@@ -76,11 +76,12 @@ def write_capture(path, packets, e="<", tsresol=None, dsbs=(), dsb_at=0, extra_b
         f.write(b"".join(out))
 
 
-def write_legacy_pcap(path, packets):
-    out = [struct.pack("<IHHiIII", 0xA1B2C3D4, 2, 4, 0, 0, 0x40000, 1)]
+def write_legacy_pcap(path, packets, e="<", nano=False):
+    """libpcap file, either byte order, microsecond (a1b2c3d4) or nanosecond (a1b23c4d) magic number"""
+    out = [struct.pack(e + "IHHiIII", 0xA1B23C4D if nano else 0xA1B2C3D4, 2, 4, 0, 0, 0x40000, 1)]
     for frame, ts in packets:
         us = ts if isinstance(ts, int) else int(round(ts * 1000000))
-        out.append(struct.pack("<IIII", us // 1000000, us % 1000000, len(frame), len(frame)) + frame)
+        out.append(struct.pack(e + "IIII", us // 1000000, (us % 1000000) * (1000 if nano else 1), len(frame), len(frame)) + frame)
     with open(path, "wb") as f:
         f.write(b"".join(out))
 
